@@ -77,6 +77,83 @@ const char* const KNOWN_DEFECTS[] = {
     "C08-D6-processcontents-of-first-overlapping-wildcard",  // laxElementValidation ignores the leaf chosen by handleRepetitions
 };
 bool g_skip_known = false;
+bool g_defect_active[6] = {true, true, true, true, true, true};   // set by probe_defects(): false = the witness passes (defect fixed)
+
+// One minimal witness per diagnosed defect: schema body (inside the urn:t schema, r = (e*)), the instance element on line 2, the
+// full-checking value under which it shows, and what XML Schema 1.0 demands for that line.
+struct Witness { const char* slug; const char* body; const char* item; bool full; bool expectInvalid; const char* expected; const char* where; };
+static const Witness WITNESSES[6] = {
+    {"defect:counters-shared-by-same-name-particles",
+     "<xs:element name=\"a\" type=\"xs:string\"/>\n<xs:element name=\"e\"><xs:complexType><xs:sequence><xs:element ref=\"t:a\"/><xs:element ref=\"t:a\" minOccurs=\"2\" maxOccurs=\"2\"/></xs:sequence></xs:complexType></xs:element>\n",
+     "<t:e><t:a/><t:a/></t:e>", false, true, "validity error: (a, a{2,2}) needs three a", "DFAContentModel::buildDFA (elemOccurenceMap keyed by element-map entry)"},
+    {"defect:value-constraint-ignored-for-mixed-content",
+     "<xs:element name=\"a\"><xs:complexType/></xs:element>\n<xs:element name=\"e\" fixed=\"5\"><xs:complexType mixed=\"true\"><xs:sequence><xs:element ref=\"t:a\" minOccurs=\"0\"/></xs:sequence></xs:complexType></xs:element>\n",
+     "<t:e>6</t:e>", true, true, "validity error: content differs from the fixed value (cvc-elt.5.2.2.2.1)", "SchemaValidator::checkContent (Mixed/Children branch ignores the value constraint)"},
+    {"defect:whitespace-only-content-takes-default",
+     "<xs:element name=\"e\" type=\"xs:integer\" default=\"5\"/>\n",
+     "<t:e> </t:e>", true, true, "validity error: ' ' is not an xs:integer (default applies only without character children, cvc-elt.5.1)", "SchemaValidator::checkContent (tests the collapsed buffer for emptiness)"},
+    {"defect:fatal-error-for-invalid-value-with-fixed",
+     "<xs:element name=\"e\" type=\"xs:integer\" fixed=\"5\"/>\n",
+     "<t:e>x</t:e>", true, true, "validity error (not a fatal error) for a well-formed document", "SchemaValidator::checkContent (compare() before validate(), exception escapes)"},
+    {"defect:xsi-nil-false-leaks-to-next-element",
+     "<xs:element name=\"a\"><xs:complexType/></xs:element>\n<xs:element name=\"e\" nillable=\"true\"><xs:complexType><xs:sequence><xs:element ref=\"t:a\" minOccurs=\"0\"/></xs:sequence></xs:complexType></xs:element>\n",
+     "<t:e xsi:nil=\"false\"><t:a/></t:e>", true, false, "valid (nillable element, xsi:nil='false', content matches)", "SchemaValidator::validateElement / checkContent (fNilFound not cleared)"},
+    {"defect:processcontents-of-first-overlapping-wildcard",
+     "<xs:element name=\"e\"><xs:complexType><xs:sequence><xs:any namespace=\"##other\" processContents=\"lax\" minOccurs=\"2\" maxOccurs=\"2\"/>"
+     "<xs:any namespace=\"##other\" processContents=\"strict\" minOccurs=\"0\" maxOccurs=\"1\"/></xs:sequence></xs:complexType></xs:element>\n",
+     "<t:e><x:x/><x:x/><x:x/></t:e>", true, true, "validity error: third child is matched by the strict wildcard and has no declaration", "IGXMLScanner/SGXMLScanner::laxElementValidation (leaf index passed to handleRepetitions by value)"},
+};
+static std::string witness_schema(int i) {
+    return std::string(XSD_HEAD) + "<xs:element name=\"r\"><xs:complexType><xs:sequence><xs:element ref=\"t:e\" minOccurs=\"0\" maxOccurs=\"unbounded\"/></xs:sequence></xs:complexType></xs:element>\n" +
+           WITNESSES[i].body + "</xs:schema>\n";
+}
+static std::string witness_doc(int i) { return std::string(DOC_HEAD) + WITNESSES[i].item + "\n</t:r>\n"; }
+// runs witness i strictly under one configuration; returns "" if the library behaves as demanded, otherwise a description of what was observed
+static std::string witness_observed(int i, int scanner, int api) {
+    const Witness& w = WITNESSES[i];
+    Config cfg; cfg.api = api; cfg.scanner = scanner; cfg.ns = true; cfg.schema = true; cfg.val = 1; cfg.fullcheck = w.full;
+    g_vfs->clear();
+    g_vfs->put("/v/s.xsd", witness_schema(i));
+    Parsed P = parse8(cfg, witness_doc(i), false, false);
+    bool err2 = false, other = false; std::string first, fatal;
+    for (auto& e : P.r.errors) {
+        ErrRec er = split_err(e);
+        if (er.sev == 'W') continue;
+        if (er.sev == 'F') { if (fatal.empty()) fatal = e; continue; }
+        if (ends_with(er.sysid, "doc.xml") && er.line == 2) { err2 = true; if (first.empty()) first = e; }
+        else { other = true; if (first.empty()) first = e; }
+    }
+    if (!P.r.exc.empty()) return "exception " + P.r.exc;
+    if (!fatal.empty()) return "fatal error: " + fatal;
+    if (other) return "error outside the instance line: " + first;
+    if (err2 != w.expectInvalid) return err2 ? "validity error reported: " + first : std::string("no error reported (instance accepted)");
+    return "";
+}
+// start-up probe (parent process, before the workers are forked): a defect whose witness passes is no longer skipped anywhere
+static void probe_defects() {
+    for (int i = 0; i < 6; i++) g_defect_active[i] = !witness_observed(i, IG, SAX2).empty() || !witness_observed(i, SG, DOM).empty();
+    g_vfs->clear();
+}
+static int defect_index(const std::string& tag);
+static void run_witness(uint64_t idx, Ctx& c) {
+    int i = (int)idx;
+    const Witness& w = WITNESSES[i];
+    std::string failing, observed;
+    int nfail = 0;
+    for (int sc : {IG, SG}) for (int api : {SAX2, DOM}) {
+        std::string o = witness_observed(i, sc, api);
+        c.count("parses");
+        if (c.verbose) printf("%s %s/%s full=%d: %s\n", w.slug, ScnName[sc], ApiName[api], (int)w.full, o.empty() ? "as demanded" : o.c_str());
+        if (o.empty()) continue;
+        nfail++;
+        if (observed.empty()) observed = o;
+        failing += std::string(failing.empty() ? "" : ", ") + ApiName[api] + "/" + ScnName[sc];
+    }
+    c.count(nfail ? "witnesses_failing" : "witnesses_passing");
+    if (nfail)
+        c.violation(w.slug, "\"id\":" + jstr(KNOWN_DEFECTS[i]) + ",\"config\":" + jstr(failing + (w.full ? " / full checking on" : " / full checking off")) + ",\"instance\":" + jstr(w.item) +
+                                ",\"expected\":" + jstr(w.expected) + ",\"observed\":" + jstr(observed) + ",\"where\":" + jstr(w.where) + ",\"schema\":" + jstr(witness_schema(i)));
+}
 static std::string defect_tag(const std::string& caseDesc, const std::string& kind, const std::string& instance, const std::string& err) {
     bool mixedish = caseDesc.find("type=mixed-aopt") != std::string::npos || caseDesc.find("type=anytype") != std::string::npos;
     bool vc = caseDesc.find("vc=none") == std::string::npos;
@@ -86,9 +163,12 @@ static std::string defect_tag(const std::string& caseDesc, const std::string& ki
     if (kind == "invalid-instance-accepted" && caseDesc.find("vc=default") != std::string::npos && (instance == "<t:e> </t:e>" || instance == "<t:e>&#32;</t:e>")) return KNOWN_DEFECTS[2];
     return "";
 }
+static int defect_index(const std::string& tag) { for (int i = 0; i < 6; i++) if (tag == KNOWN_DEFECTS[i]) return i; return -1; }
 // returns true if the violation is to be reported; otherwise it has been counted as a skipped known defect
 static bool report_or_skip(Ctx& c, const std::string& tag, std::string& fields) {
     if (tag.empty()) return true;
+    int di = defect_index(tag);
+    if (di >= 0 && !g_defect_active[di]) return true;   // the witness of this defect passes: nothing is explained away any more
     if (g_skip_known) { c.count("known_defect:" + tag); return false; }
     fields += ",\"defect\":" + jstr(tag);
     c.count("tagged:" + tag);
@@ -718,6 +798,13 @@ static void build_assembly(const std::string& tier) {
 }
 
 static bool setup_space(const std::string& space, const std::string& tier, const Args& a, Runner& R) {
+    if (space == "witness") {
+        R.total = 6;
+        R.fn = run_witness;
+        R.describe = [](uint64_t i) { return "{\"witness\":" + jstr(WITNESSES[i].slug) + "}"; };
+        R.extra_json = "\"bounds\":{\"witnesses\":6}";
+        return true;
+    }
     if (space == "attrs") build_attrs(tier);
     else if (space == "content") build_content(tier);
     else if (space == "types") build_types(tier);
@@ -727,7 +814,9 @@ static bool setup_space(const std::string& space, const std::string& tier, const
     g_bspace = space;
     g_types_mode = (int)a.num("types", 1);
     g_all_cfgs = a.num("allcfgs", tier == "thorough" ? 1 : 0) != 0;
-    g_skip_known = a.str("known", "report") == "skip";
+    g_skip_known = a.str("known", "skip") == "skip";
+    probe_defects();
+    for (int i = 0; i < 6; i++) if (a.num("assume-fixed", 0) & (1 << i)) g_defect_active[i] = false;   // development aid: pretend the witness of defect i passes
     size_t items = 0;
     for (auto& b : BCASES) items += b.items.size();
     R.total = BCASES.size();
